@@ -368,10 +368,10 @@ def run(tier, rep):
         if i % 2 == 1 and "fault-keydoc" not in script:
             script[2:2] = ["fault-keydoc", "provision"]
         args.append({"shard": i, "tier": tier, "script": script, "strace": i % 2 == 0, "preexisting_dir": i % 3 == 1, "chown_fault": i % 4 == 0})
-    for res in sandbox.run_many("vf.props.c12", "real_history", args, workers=8, timeout=600):
+    for res in sandbox.run_many("vf.props.c12", "real_history", args, workers=8, timeout=600 if tier == "quick" else 5400):
         rep.merge_worker(res)
     pargs = [{"shard": i, "tier": tier, "rounds": 8 if tier == "quick" else 40, "aborts": 4000 if tier == "quick" else 30000} for i in range(4 if tier == "quick" else 8)]
-    for res in sandbox.run_many("vf.props.c12", "pipeline", pargs, workers=8, timeout=600):
+    for res in sandbox.run_many("vf.props.c12", "pipeline", pargs, workers=8, timeout=600 if tier == "quick" else 5400):
         rep.merge_worker(res)
     rep.assumptions += ["keys the mock host generated but never sent to the guest are not secrets of interest",
                         "process memory, core dumps and swap are not 'outputs' in the statement"]
